@@ -38,6 +38,9 @@ impl Emitter for FilesWithBackupEmitter {
 
             #[cfg(rustfmt_verif)]
             crate::verif_hooks::crash_point("bk:before_write_tmp")?;
+            // A stale temp file may be a symbolic link, even to the file itself: never write
+            // through it.
+            let _ = fs::remove_file(&tmp_name);
             fs::write(&tmp_name, formatted_text)?;
             #[cfg(rustfmt_verif)]
             crate::verif_hooks::crash_point("bk:after_write_tmp")?;
